@@ -34,6 +34,14 @@ func c25Tags(ts []string) string {
 	return coqList(items)
 }
 
+// c25Raw prints a raw flag value as bytes (never as the empty-tag literal)
+func c25Raw(v string) string {
+	if v == "" {
+		return "[]"
+	}
+	return coqStr(v)
+}
+
 func c25Lists(ls [][]string) string {
 	items := make([]string, len(ls))
 	for i, l := range ls {
@@ -153,10 +161,19 @@ func c25Fates(t *c25Names, before, after []c25Snap) (fates []string, extra int, 
 	return fates, extra, strings.Join(hs, " ")
 }
 
-func c25Join(ls [][]string, flag string) []string {
+// c25Join renders tag lists as flag values; pad (may be nil) surrounds single tags with white space
+// that splitTagList has to trim again
+func c25Join(ls [][]string, flag string, pad func(string) string) []string {
 	var args []string
 	for _, l := range ls {
-		args = append(args, flag, strings.Join(l, ","))
+		parts := make([]string, len(l))
+		for i, t := range l {
+			parts[i] = t
+			if pad != nil {
+				parts[i] = pad(t)
+			}
+		}
+		args = append(args, flag, strings.Join(parts, ","))
 	}
 	return args
 }
@@ -212,6 +229,15 @@ func engineC25(c *vctx) error {
 			unitAdd("unit-add", tags, A)
 		}
 	}
+	unitSplit := func(v string) {
+		var l data.TagList
+		_ = l.Set(v)
+		c.Case("unit-split", strings.Contains(v, ","), len(v), fmt.Sprintf("KSplit %s %s", c25Raw(v), c25Tags([]string(l))),
+			fmt.Sprintf("splitTagList %q -> %q", v, []string(l)))
+	}
+	for _, v := range []string{"", ",", " ", "a", " a ", "a,b", " a , b ", "a b", ",a,", "a,,b", "\ta\t,\n b", " , ", "a ,", "  a b  ,c", "a\vb", "\r\n", "x\f", ",,", "a,b,c,d"} {
+		unitSplit(v)
+	}
 	unitFlatten(nil)
 	unitFlatten([][]string{{""}})
 	unitFlatten([][]string{{"a", "", "b"}, {""}, {"c", "a"}})
@@ -232,6 +258,14 @@ func engineC25(c *vctx) error {
 	for i := 0; i < c.n(110, 3000); i++ {
 		unitRemove("unit-remove", randTags(7, rng.chance(20)), randTags(3, rng.chance(20)))
 		unitAdd("unit-add", randTags(5, false), randTags(4, rng.chance(20)))
+		if i%3 == 0 {
+			chars := []string{"a", "b", " ", ",", "\t", "c d", ", ", " ,", "\n"}
+			v := ""
+			for k := rng.intn(7); k > 0; k-- {
+				v += chars[rng.intn(len(chars))]
+			}
+			unitSplit(v)
+		}
 		if i%5 == 0 {
 			var ls [][]string
 			for k := rng.intn(4); k > 0; k-- {
@@ -388,9 +422,13 @@ func engineC25(c *vctx) error {
 				addL, remL = mkLists(2), mkLists(2)
 			}
 			args := []string{"tag"}
-			args = append(args, c25Join(setL, "--set")...)
-			args = append(args, c25Join(addL, "--add")...)
-			args = append(args, c25Join(remL, "--remove")...)
+			pad := func(t string) string {
+				ws := []string{"", "", " ", "  ", "\t", " \t"}
+				return ws[rng.intn(len(ws))] + t + ws[rng.intn(len(ws))]
+			}
+			args = append(args, c25Join(setL, "--set", pad)...)
+			args = append(args, c25Join(addL, "--add", pad)...)
+			args = append(args, c25Join(remL, "--remove", pad)...)
 			sel := make([]bool, len(before))
 			selKind := rng.intn(4)
 			switch selKind {
